@@ -36,7 +36,30 @@ class SchedCondition:
         pass
 
     def wait(self, timeout=None):
-        self.sched.sleep_on(self)
+        if timeout is None:
+            self.sched.sleep_on(self)
+            return True
+        # a bounded wait ends by a notify or because the time is up. Under the scheduler the waiter stays
+        # runnable: choosing it means "the time is up" (the holder may be arbitrarily slow), unless it was
+        # notified meanwhile.
+        t = self.sched.me()
+        self.waiters.append(t)
+        self.sched.yield_point(("timed-wait", self.name))
+        if t in self.waiters:
+            self.waiters.remove(t)
+            return False
+        return True
+
+    def wait_for(self, predicate, timeout=None):
+        """threading.Condition.wait_for: wait until the predicate holds; with a timeout, give up after one
+        bounded wait that ends with the predicate still false (the time is up) and return its value"""
+        result = predicate()
+        while not result:
+            self.wait(timeout)
+            result = predicate()
+            if timeout is not None:
+                break
+        return result
 
     def notify(self, n=1):
         for _ in range(n):
@@ -109,6 +132,8 @@ class Sched:
 
     def wake(self, t):
         # called by the running worker inside notify(): t becomes runnable (it will re-test)
+        if self.state[t] == "ready":
+            return                      # a bounded waiter: it is runnable already
         self.state[t] = "ready"
         self.pending[t] = ("woken", None)
 
